@@ -252,6 +252,18 @@ def _unit_job(pid, idx, timeout_ms, tier):
     return rep, lite, res
 
 
+def _unit_child(pid, idx, timeout_ms, tier, conn):
+    try:
+        conn.send(_unit_job(pid, idx, timeout_ms, tier))
+    except Exception:
+        try:
+            conn.send(None)
+        except Exception:
+            pass
+    finally:
+        conn.close()
+
+
 # ----------------------------------------------------------------------------
 class Run:
     def __init__(self, pid, tier, seed):
@@ -315,21 +327,33 @@ class Run:
         """generate and discharge the units of this property in parallel worker
         processes (one unit per task); returns {index: (report, obligations-lite,
         results)} for the units whose obligations were all discharged"""
-        from concurrent.futures import ProcessPoolExecutor
         import multiprocessing as mp
+        from multiprocessing.pool import ThreadPool
         units = getattr(self.mod, "UNITS", [])
         n = min(len(units), int(os.environ.get("VERIF_JOBS", "0")) or min(16, os.cpu_count() or 4))
         if n < 2:
             return {}
         solve.close_pool()
+        ctx = mp.get_context("fork")
+        args = (self.pid, self.timeout_ms(), self.tier)
+
+        def one(i):
+            # one process per unit, forked from this process as it is now: what a worker
+            # has generated before then cannot leak into the names of the next unit
+            parent, child = ctx.Pipe(duplex=False)
+            p = ctx.Process(target=_unit_child, args=(args[0], i, args[1], args[2], child))
+            p.start()
+            child.close()
+            try:
+                r = parent.recv()
+            except (EOFError, OSError):
+                r = None
+            p.join()
+            parent.close()
+            return r
         out = {}
-        with ProcessPoolExecutor(max_workers=n, mp_context=mp.get_context("fork")) as ex:
-            futs = {i: ex.submit(_unit_job, self.pid, i, self.timeout_ms(), self.tier) for i in range(len(units))}
-            for i, fu in futs.items():
-                try:
-                    r = fu.result()
-                except Exception:
-                    r = None
+        with ThreadPool(n) as tp:
+            for i, r in enumerate(tp.map(one, range(len(units)), chunksize=1)):
                 if r is not None:
                     out[i] = r
         return out
